@@ -363,7 +363,8 @@ Definition show_err (e : err) : string :=
   | Unsupported => "UNSUPPORTED"
   end.
 
-Definition show_out (w : world) : string := show_sep "," hex_of_bytes (rev (out w)).
+(* every printed line as "=<hex>" (an empty line is not the same as no line) *)
+Definition show_out (w : world) : string := show_sep "," (fun l => "=" ++ hex_of_bytes l) (rev (out w)).
 
 (* "C <code hex>|K <constants>" *)
 Definition show_compiled (bpf : bool) (p : Ast.program) : string :=
